@@ -537,4 +537,3 @@ func rejectionClass(out string) string {
 	}
 	return "other error: " + strings.Join(f, " ") + "…"
 }
-
